@@ -66,7 +66,7 @@ def cases(tier, seed):
 
 
 def bounds(tier):
-    return {"history_depth": 4 if tier == "quick" else 6, "events": 11, "models": "2 and 3 boxes in a row with outer patches and an interface patch pair"}
+    return {"history_depth": 4 if tier == "quick" else 6, "events": 11, "models": "2 and 3 boxes in a row with outer patches, an interface patch pair, and corner/edge/side projections declared by the second box on entities it shares with the first"}
 
 
 # ----------------------------------------------------------------------------
@@ -89,6 +89,10 @@ class Model:
                 p["left"] = "mid_b"
             p["top"] = "lid"
             self.patches.append(p)
+        # projections declared on the second box only, all on entities it shares with the first one (its corner 0 is
+        # the first box's corner 1, its edge 0-3 the first box's 1-2, its left side the first box's right side)
+        self.proj = [[] for _ in range(self.n)]
+        self.proj[1] = [("corner", 0, "terrain"), ("edge", 0, 3, "terrain"), ("side", "left", "terrain")]
         self.deleted = set()
         self.assembled = False
         self.moves = []  # pending (op, corner, delta) on assembled vertices
@@ -159,14 +163,21 @@ def _side(s):
     return s
 
 
-def make_ops(model_pts, patches):
+def make_ops(model_pts, patches, projections=None):
     import classy_blocks as cb
 
     ops = []
-    for pts, pat in zip(model_pts, patches):
+    for k, (pts, pat) in enumerate(zip(model_pts, patches)):
         loft = cb.Loft(cb.Face(pts[:4]), cb.Face(pts[4:]))
         for side, name in pat.items():
             loft.set_patch(side, name)
+        for pr in projections[k] if projections else []:
+            if pr[0] == "corner":
+                loft.project_corner(pr[1], pr[2])
+            elif pr[0] == "edge":
+                loft.project_edge(pr[1], pr[2], pr[3])
+            else:
+                loft.project_side(pr[1], pr[2])
         for a, cnt in enumerate((2, 3, 4)):
             loft.chop(a, count=cnt)
         ops.append(loft)
@@ -228,7 +239,7 @@ def replay(variant, history):
 
     model = Model(variant)
     mesh = cb.Mesh()
-    ops = make_ops(model.pts, model.patches)
+    ops = make_ops(model.pts, model.patches, model.proj)
     add_entities(mesh, ops, variants()[variant].get("bundle"))
     writes = []
     for k, ev in enumerate(history):
@@ -271,7 +282,7 @@ def reference_text(variant, history_upto):
         model.apply(ev)
     live = [i for i in range(model.n) if i not in model.deleted]
     mesh = cb.Mesh()
-    ops = make_ops([model.pts[i] for i in live], [model.patches[i] for i in live])
+    ops = make_ops([model.pts[i] for i in live], [model.patches[i] for i in live], [model.proj[i] for i in live])
     for op in ops:
         mesh.add(op)
     for ev, phase in model.mods:
